@@ -16,6 +16,7 @@ CASES = r'''
 import functools
 import itertools as _it
 from operator import itemgetter as _ig
+from functools import partial as _ft_partial
 _state = {"k": 1}
 
 @functools.lru_cache(maxsize=None)
@@ -655,6 +656,55 @@ def conditional_private_call(rows):
         out.append(row)
     return out
 
+class _Pool:
+    def __init__(self):
+        self.calls = []
+    def submit(self, fn, *args, **kw):
+        self.calls.append((fn.__name__ if hasattr(fn, "__name__") else "partial", args, tuple(sorted(kw.items()))))
+        return fn(*args, **kw)
+
+def _job3(d, x, category):
+    return (d, x, category)
+
+def partial_jobs(d, xs):
+    p = _Pool()
+    job = _ft_partial(_job3, d, category=None)
+    out = [p.submit(job, x) for x in xs]
+    return out
+
+def partial_job_selected(d, xs, fast):
+    p = _Pool()
+    f = _job3
+    if fast:
+        f = _job3
+    job = _ft_partial(f, d)
+    return [p.submit(job, x, "k") for x in xs]
+
+def partial_rebound_arg_must_stay(d, xs):
+    p = _Pool()
+    job = _ft_partial(_job3, d, category=None)
+    d = "other"
+    return [p.submit(job, x) for x in xs], d
+
+def partial_escapes_must_stay(d, xs):
+    p = _Pool()
+    job = _ft_partial(_job3, d, category=None)
+    return [p.submit(job, x) for x in xs], job.args
+
+def row_store_array_literal(rows):
+    import numpy as np
+    out = np.empty((len(rows), 2), dtype=np.float32)
+    for i, r in enumerate(rows):
+        out[i] = np.array([r[0], r[0] / 3], dtype=np.float32)
+    return out.tolist()
+
+def row_store_array_other_dtype_must_stay(rows):
+    import numpy as np
+    out = np.empty((len(rows), 2), dtype=np.float32)
+    for i, r in enumerate(rows):
+        out[i] = np.array([r[0], r[0] / 3], dtype=np.float16)
+    return out.tolist()
+
 def takes_three(a, b, c=3):
     return (a, b, c)
 
@@ -940,6 +990,9 @@ ARGS = {
     "match_capture_must_stay": [((1, 2),), (5,)],
     "row_store": [([(1, 2), (3, 4)],), ([],)], "row_store_scalar_3d": [(2,), (0,)], "row_store_on_list_must_stay": [([(1, 2)],)],
     "conditional_private_call": [([(1, 2), None, (3, 4)],)],
+    "partial_jobs": [("D", [1, 2])], "partial_job_selected": [("D", [1], True), ("D", [1, 2], False)], "partial_rebound_arg_must_stay": [("D", [1])],
+    "partial_escapes_must_stay": [("D", [1])],
+    "row_store_array_literal": [([(1, 2), (7, 4)],)], "row_store_array_other_dtype_must_stay": [([(1, 2), (7, 4)],)],
     "keys_loop": [({"b": [1, 2], "a": [3]},), ({},)], "keys_loop_keys_call": [({"b": [1, 2], "a": [3]},), ({},)],
     "keys_loop_body_stores_must_stay": [({"b": [1, 2], "a": [3]},)], "keys_loop_other_key_must_stay": [({"b": [1], "a": [3]}, "a")],
     "keys_loop_rebinds_key_must_stay": [({"b": [1], "a": [3]},)],
